@@ -54,7 +54,8 @@ SHRINK_LISTS = ("lines", "chunks", "writes", "tapes")
 
 LINES = [b"1;0;1;0;2;1", b"", b"0;255;3;0;9;log", "12;6;1;0;47;ünï".encode(), "7;1;1;0;47;温度".encode(),
          b"1;255;3;0;0;55\r", b"\xff\xfe", b"1;0;1;0;2;\xc3", b"\x80abc", b"a;b", b"1;0;1;0;47;" + b"x" * 300,
-         "€".encode(), b"\x00", b"1;2", b"\xf0\x9f\x98\x80", b"\xed\xa0\x80"]
+         "€".encode(), b"\x00", b"1;2", b"\xf0\x9f\x98\x80", b"\xed\xa0\x80", b"\xef\xbb\xbf1;255;0;0;17;2.3.2",
+         b"\xef\xbb\xbf", b"\xef\xbb", b"1;0;1;0;47;\xef\xbb\xbfx", "\u2028;\x85".encode(), b"\x1c1;0;1;0;2;1\x1d"]
 
 
 def budget(tier):
